@@ -593,7 +593,7 @@ class AnsiString:
                 break
             elif idx == en:
                 if settings.rem:
-                    new_s._fmts[idx - st] = _AnsiSettingPoint(rem=(settings.rem))
+                    new_s._fmts[idx - st] = _AnsiSettingPoint(rem=list(settings.rem))
                 # Complete
                 break
             elif idx == st:
@@ -604,7 +604,7 @@ class AnsiString:
                 if not settings_initialized and previous_settings:
                     new_s._fmts[0] = _AnsiSettingPoint(add=previous_settings)
                 settings_initialized = True
-                new_s._fmts[idx - st] = _AnsiSettingPoint(settings.add, settings.rem)
+                new_s._fmts[idx - st] = _AnsiSettingPoint(list(settings.add), list(settings.rem))
 
             # It's necessary to copy (i.e. call list()) since current_settings ref will change on next loop
             previous_settings = list(current_settings)
@@ -618,7 +618,10 @@ class AnsiString:
             new_len = len(new_s._s)
             if new_len not in new_s._fmts:
                 new_s._fmts[new_len] = _AnsiSettingPoint()
-            settings_to_remove = [s for s in previous_settings if s not in new_s._fmts[new_len].rem]
+            settings_to_remove = [
+                s for s in previous_settings
+                if __class__._find_setting_reference(s, new_s._fmts[new_len].rem) < 0
+            ]
             new_s._fmts[new_len].rem.extend(settings_to_remove)
 
         return new_s
